@@ -35,8 +35,14 @@ def mk_factory(rng):
             size = int(numpy.prod(shape)) if shape else 1
             vals = [rng.choice([1, 2, 3, -1, -2]) if nonzero else rng.randint(-3, 3) for _ in range(size)]
             return numpoly.polynomial(numpy.array(vals, dtype=numpy.int64).reshape(shape))
-        return gen.rand_poly(rng, tuple(shape), gen.rand_names(rng, 2), nterms=rng.choice([1, 2, 3]), maxexp=2,
-                             dtype=numpy.int64, raw=False)
+        q = gen.rand_poly(rng, tuple(shape), gen.rand_names(rng, 2), nterms=rng.choice([1, 2, 3]), maxexp=2,
+                          dtype=numpy.int64, raw=False)
+        if rng.random() < 0.3:
+            # coefficient dtypes narrower than 64 bits: the spellings must agree on the dtype of the result as well
+            d = rng.choice(["float32", "int16", "int32", "uint8", "complex64"])
+            cs = [numpy.abs(numpy.asarray(c)).astype(d) if d == "uint8" else numpy.asarray(c).astype(d) for c in q.coefficients]
+            q = numpoly.polynomial_from_attributes(q.exponents, cs, q.names, retain_coefficients=True, retain_names=True)
+        return q
     return mk
 
 
